@@ -43,17 +43,29 @@ enum Exec {
 // forked child with a time limit, per allow_missing_inputs setting:
 // 0 = probing (fork), 1 = trusted after PROBE_CLEAN clean returns (in-process),
 // 2 = a hang was confirmed; the class is skipped (and counted) from then on.
-static DANGER_MODE: [AtomicU64; 2] = [AtomicU64::new(0), AtomicU64::new(0)];
-static DANGER_CLEAN: [AtomicU64; 2] = [AtomicU64::new(0), AtomicU64::new(0)];
+// Classes: 0/1 = plannable with a cycle through an available value
+// (allow_missing_inputs false/true), 2/3 = a cycle for which an error is
+// required (a planner without a working cycle test recurses without bound).
+static DANGER_MODE: [AtomicU64; 4] = [AtomicU64::new(0), AtomicU64::new(0), AtomicU64::new(0), AtomicU64::new(0)];
+static DANGER_CLEAN: [AtomicU64; 4] = [AtomicU64::new(0), AtomicU64::new(0), AtomicU64::new(0), AtomicU64::new(0)];
 const PROBE_CLEAN: u64 = 24;
 
-/// Plan in a forked child. Ok(true) = returned within `limit`; Ok(false) =
-/// still running after `limit` (the child is killed).
-fn plan_in_child(spec: &GSpec, req: &Request, limit: Duration) -> Result<bool, String> {
+#[derive(PartialEq, Debug)]
+enum ChildEnd {
+    Finished,
+    /// Still running after the limit; killed.
+    TimedOut,
+    /// Killed by a signal (stack overflow, out of memory ...).
+    Died(i32),
+    Failed,
+}
+
+/// Plan in a forked child with a time limit.
+fn plan_in_child(spec: &GSpec, req: &Request, limit: Duration) -> ChildEnd {
     unsafe {
         let pid = libc::fork();
         if pid < 0 {
-            return Err("fork failed".to_string());
+            return ChildEnd::Failed;
         }
         if pid == 0 {
             // Child: only this thread exists.
@@ -68,15 +80,21 @@ fn plan_in_child(spec: &GSpec, req: &Request, limit: Duration) -> Result<bool, S
             let mut status = 0;
             let r = libc::waitpid(pid, &mut status, libc::WNOHANG);
             if r == pid {
-                return if libc::WIFEXITED(status) { Ok(true) } else { Err(format!("probe child died with status {}", status)) };
+                return if libc::WIFEXITED(status) {
+                    ChildEnd::Finished
+                } else if libc::WIFSIGNALED(status) {
+                    ChildEnd::Died(libc::WTERMSIG(status))
+                } else {
+                    ChildEnd::Failed
+                };
             }
             if r < 0 {
-                return Err("waitpid failed".to_string());
+                return ChildEnd::Failed;
             }
             if t0.elapsed() > limit {
                 libc::kill(pid, libc::SIGKILL);
                 libc::waitpid(pid, &mut status, 0);
-                return Ok(false);
+                return ChildEnd::TimedOut;
             }
             std::thread::sleep(Duration::from_micros(300));
         }
@@ -86,57 +104,60 @@ fn plan_in_child(spec: &GSpec, req: &Request, limit: Duration) -> Result<bool, S
 enum Probe {
     Proceed,
     Skip,
-    Hang,
+    Hang(String),
 }
 
 /// Number of threads currently waiting for a probe child (the watchdog must
 /// not mistake that wait for a stuck planner).
 static PROBING: AtomicU64 = AtomicU64::new(0);
 
-fn probe_danger(spec: &GSpec, req: &Request, force: bool, st: &mut Stats) -> Probe {
+fn probe_danger(class: usize, spec: &GSpec, req: &Request, force: bool, st: &mut Stats) -> Probe {
     PROBING.fetch_add(1, SeqCst);
-    let r = probe_danger_inner(spec, req, force, st);
+    let r = probe_danger_inner(class, spec, req, force, st);
     PROBING.fetch_sub(1, SeqCst);
     r
 }
 
-fn probe_danger_inner(spec: &GSpec, req: &Request, force: bool, st: &mut Stats) -> Probe {
-    let class = req.allow_missing as usize;
+fn probe_danger_inner(class: usize, spec: &GSpec, req: &Request, force: bool, st: &mut Stats) -> Probe {
     let mode = DANGER_MODE[class].load(SeqCst);
     if !force {
         if mode == 1 {
             return Probe::Proceed;
         }
         if mode == 2 {
-            st.count("skipped_cycle_through_available_after_confirmed_hang");
+            st.count(if class < 2 { "skipped_cycle_through_available_after_confirmed_hang" } else { "skipped_cyclic_request_after_confirmed_hang" });
             return Probe::Skip;
         }
     }
     st.count("probed_in_child_process");
     // Normal planning of these graphs takes microseconds.
     let (first, confirm) = if force { (120, 500) } else { (700, 3000) };
-    match plan_in_child(spec, req, Duration::from_millis(first)) {
-        Ok(true) => {
+    let mut end = plan_in_child(spec, req, Duration::from_millis(first));
+    if end == ChildEnd::TimedOut {
+        end = plan_in_child(spec, req, Duration::from_millis(confirm));
+        if end == ChildEnd::Finished {
+            st.count("hang_suspicion_not_confirmed");
+        }
+    } else if let ChildEnd::Died(_) = end {
+        // Confirm a crash by running it once more.
+        end = plan_in_child(spec, req, Duration::from_millis(confirm));
+    }
+    match end {
+        ChildEnd::Finished => {
             if DANGER_CLEAN[class].fetch_add(1, SeqCst) + 1 >= PROBE_CLEAN && mode == 0 {
                 DANGER_MODE[class].store(1, SeqCst);
             }
             Probe::Proceed
         }
-        Ok(false) => match plan_in_child(spec, req, Duration::from_millis(confirm)) {
-            Ok(false) => {
-                DANGER_MODE[class].store(2, SeqCst);
-                Probe::Hang
-            }
-            Ok(true) => {
-                st.count("hang_suspicion_not_confirmed");
-                Probe::Proceed
-            }
-            Err(_) => {
-                st.count("probe_child_failed");
-                Probe::Skip
-            }
-        },
-        Err(_) => {
+        ChildEnd::TimedOut => {
+            DANGER_MODE[class].store(2, SeqCst);
+            Probe::Hang("execution_plan did not return: run in a child process it had to be killed after the time limit, twice (normal cost: microseconds)".to_string())
+        }
+        ChildEnd::Died(sig) => {
+            DANGER_MODE[class].store(2, SeqCst);
+            Probe::Hang(format!("execution_plan did not return: run in a child process it was killed by signal {} (stack exhausted by unbounded recursion?), twice", sig))
+        }
+        ChildEnd::Failed => {
             st.count("probe_child_failed");
             Probe::Skip
         }
@@ -223,14 +244,19 @@ fn is_plan_panic(msg: &str) -> bool {
 fn check_request(b: &Built, orc: &mut Oracle, spec: &GSpec, req: &Request, ins: &[NodeId], outs: &[NodeId], exec: Exec, st: &mut Stats, id_hash: u64) -> Option<Failure> {
     st.evals += 1;
     let expect = orc.classify(req);
-    if expect == Expect::Ok && orc.cycle_through_available() {
-        st.count("requests_with_cycle_through_available_value");
-        match probe_danger(spec, req, exec == Exec::YesForceProbe, st) {
+    let class = match &expect {
+        Expect::Err(ErrWhy::Cycle) => Some(2 + req.allow_missing as usize),
+        Expect::Ok if orc.cycle_through_available() => {
+            st.count("requests_with_cycle_through_available_value");
+            Some(req.allow_missing as usize)
+        }
+        _ => None,
+    };
+    if let Some(class) = class {
+        match probe_danger(class, spec, req, exec == Exec::YesForceProbe, st) {
             Probe::Proceed => {}
             Probe::Skip => return None,
-            Probe::Hang => {
-                return Some(Failure { kind: "hang", detail: "execution_plan did not return: run in a child process it had to be killed after the time limit, twice (normal cost: microseconds)".to_string() });
-            }
+            Probe::Hang(detail) => return Some(Failure { kind: "hang", detail }),
         }
     }
     let result = match catch(|| b.plan(ins, outs, req)) {
@@ -1009,7 +1035,8 @@ fn rerun_alone(job: &WatchJob, limit: Duration) -> Option<(GSpec, Request)> {
         for req in reqs {
             *c2.lock().unwrap() = Some((spec.clone(), req.clone()));
             p2.fetch_add(1, SeqCst);
-            if orc.classify(&req) == Expect::Ok && orc.cycle_through_available() {
+            let e = orc.classify(&req);
+            if e == Expect::Err(ErrWhy::Cycle) || (e == Expect::Ok && orc.cycle_through_available()) {
                 // This class is decided by the child-process probe, not here.
                 continue;
             }
@@ -1176,6 +1203,11 @@ fn shrink(spec: &GSpec, req: &Request, fail: &Failure) -> (GSpec, Request, Failu
                     j += 1;
                 }
             }
+            if s.ops[i].outputs.iter().any(|o| o.is_none()) {
+                let mut cs = s.clone();
+                cs.ops[i].outputs.retain(|o| o.is_some());
+                attempt!(cs, r.clone());
+            }
             if s.ops[i].subgraph && s.ops[i].captures.is_empty() {
                 let mut cs = s.clone();
                 cs.ops[i].subgraph = false;
@@ -1264,7 +1296,8 @@ fn report_failure(rep: &mut Report, spec: &GSpec, req: &Request, fail: &Failure)
     let (mut s, mut r, mut f) = shrink(spec, req, fail);
     if f.kind == "hang" {
         // Shrinking used short time limits; confirm the result with the long ones.
-        let long = plan_in_child(&s, &r, Duration::from_millis(1000)) == Ok(false) && plan_in_child(&s, &r, Duration::from_millis(4000)) == Ok(false);
+        let bad = |e: ChildEnd| matches!(e, ChildEnd::TimedOut | ChildEnd::Died(_));
+        let long = bad(plan_in_child(&s, &r, Duration::from_millis(1000))) && bad(plan_in_child(&s, &r, Duration::from_millis(4000)));
         if !long {
             (s, r, f) = (spec.clone(), req.clone(), fail.clone());
         }
@@ -1384,7 +1417,7 @@ fn c03(args: &Args) {
                 "graphs": graphs, "requests": total.evals - before, "executed_every": sp.exec_every, "seconds": (secs * 100.0).round() / 100.0,
             }));
         }
-        if only.is_none() {
+        if only.is_none() || only.as_deref() == Some("random") {
             let n_random = args.budget(20_000, 2_000_000);
             let before = total.evals;
             let t0 = Instant::now();
